@@ -29,6 +29,22 @@ Qed.
 Lemma cs_reg2bin_u32 b e ms dp : u32 (cs_reg2bin b e ms dp) = cs_reg2bin b e ms dp.
 Proof. apply cs_reg2bin_go_u32. Qed.
 
+(** The query validation of Chunks passes for a query inside the range (the
+    geometry's shift is below 63, as for every index the reader accepts). *)
+Lemma cs_query_valid ix ms dp beg end_ :
+  c_ms ix = ms -> c_dp ix = dp -> u32 (ms + u32 (dp * csi_nextBinShift)) < 63 ->
+  0 <= beg < end_ -> end_ <= cs_limit ms dp + 2 ->
+  (beg <? 0) || (end_ <=? beg) || (beg >=? cs_max ix) = false /\
+  (if end_ >? cs_max ix then cs_max ix else end_) = end_.
+Proof.
+  intros Hms Hdp Hg Hq Hq2. unfold cs_max. rewrite Hms, Hdp. unfold cs_limit in Hq2.
+  set (s := u32 (ms + u32 (dp * csi_nextBinShift))) in *.
+  destruct (s <? 63) eqn:E; [|lia].
+  destruct (beg <? 0) eqn:E1; [lia|]. destruct (end_ <=? beg) eqn:E2; [lia|].
+  destruct (beg >=? Z.shiftl 1 s) eqn:E3; [lia|]. split; [reflexivity|].
+  destruct (end_ >? Z.shiftl 1 s) eqn:E4; [lia|reflexivity].
+Qed.
+
 (** ** filing a chunk *)
 Definition cfiled (bs : list cbin) (b : Z) (c : chunk) : list cbin :=
   match cs_upd_bins bs b c with Some bs' => bs' | None => bs ++ [mkCBin b (fst c) 1 [c]] end.
@@ -271,7 +287,11 @@ Section Scheme.
   (** ** the query *)
   Lemma cs_search_found bs x :
     key_sorted cnum bs -> NoDup (map cnum bs) -> In x bs -> cs_search bs (cnum x) = Some x.
-  Proof. apply (search_found cnum cs_search); intros; reflexivity. Qed.
+  Proof.
+    intros Hs Hnd Hin. destruct (bsearch_finds cnum (mkCBin 0 0 0 []) bs x Hs Hnd Hin) as (p & Hp & Hx & Hb).
+    unfold cs_search. rewrite Hb. destruct (Z.of_nat p <? zlen bs) eqn:E; [|unfold zlen in E; lia].
+    rewrite Nat2Z.id, Hx, Z.eqb_refl. reflexivity.
+  Qed.
 
   Lemma rec_in_cref_sort ref R : rec_in_cref ref R -> rec_in_cref (cs_sort_ref ref) R.
   Proof.
@@ -281,6 +301,7 @@ Section Scheme.
   Qed.
 
   Hypothesis containment : csi_bin_containment ms dp.
+  Hypothesis geo : u32 (ms + u32 (dp * csi_nextBinShift)) < 63.
 
   Theorem csi_complete_gen aux ver rs :
     ix_wf_from (cs_limit ms dp) (-1) 0 0 rs ->
@@ -302,7 +323,8 @@ Section Scheme.
       destruct (Iseen r Hs) as (A & (S1 & S2 & S3 & S4) & C). subst rid.
       unfold cs_chunks.
       destruct (q_rid r <? 0) eqn:E1; [apply Z.ltb_lt in E1; lia|].
-      destruct (q_rid r >=? zlen (c_refs ix)) eqn:E2; [lia|]. simpl.
+      destruct (q_rid r >=? zlen (c_refs ix)) eqn:E2; [lia|]. cbn [orb].
+      destruct (cs_query_valid ix ms dp beg end_ Ims Idp geo Hq Hq2) as (V1 & V2). rewrite V1, V2. cbn [fst].
       unfold cs_sort. rewrite Iuns. simpl. rewrite Ims, Idp.
       change cs_empty_ref with (cs_sort_ref cs_empty_ref). rewrite map_nth.
       set (ref := nth (Z.to_nat (q_rid r)) (c_refs ix) cs_empty_ref) in *.
